@@ -253,7 +253,7 @@ run_primary(struct mmgr **out_mm)
                         rc->out_len = it->dst_len;
                         memcpy(rc->exp_out, it->inplace ? it->exp_src + it->c_off : it->exp_dst, it->dst_len);
                 }
-                if (it->tag_len && it->have_ref) {
+                if (it->tag_len && it->have_ref && !it->tag_unspec) {
                         rc->tag = it->tag;
                         rc->tag_len = it->tag_len;
                         memcpy(rc->exp_tag, it->exp_tag, it->tag_len);
